@@ -322,3 +322,16 @@ Example cycle_example :
   let msg := [0;0;0;0;0;1;0;0;0;0;0;0; 192;14; 192;12; 0;1;0;1] in
   bytes_ok msg /\ dec_message msg = Raise ValueError.
 Proof. split; [repeat constructor|vm_compute; reflexivity]. Qed.
+
+(** an acyclic chain of compression pointers of any length is simply followed (no recursion depth,
+    no hop limit): here 2000 hops, each pointer targeting the next one, ending in the root label *)
+Fixpoint chain_ptrs (n : nat) (off : N) : list N :=
+  match n with
+  | O => [0]
+  | S k => [192 + (off + 2) / 256; (off + 2) mod 256] ++ chain_ptrs k (off + 2)
+  end.
+
+Example long_chain_example :
+  let msg := repeat 0 12 ++ chain_ptrs (N.to_nat 2000) 12 in
+  blen msg = 4013 /\ dec_name msg 12 = Done ([], 14).
+Proof. split; vm_compute; reflexivity. Qed.
